@@ -40,6 +40,10 @@ type c18Case struct {
 	// explicit elements (single-position-difference family): used instead of Ins / Outs when set
 	XIns  []c18XIn  `json:"explicit_ins,omitempty"`
 	XOuts []c18XOut `json:"explicit_outs,omitempty"`
+	// long scripts (copy fidelity): SigLens[k] > 0 makes the signature script of explicit input k
+	// c18Pattern(SigLens[k]); ScriptLens[k] > 0 likewise for the script of explicit output k
+	SigLens    []int `json:"explicit_sigscript_lens,omitempty"`
+	ScriptLens []int `json:"explicit_script_lens,omitempty"`
 }
 
 type c18XIn struct {
@@ -50,6 +54,15 @@ type c18XIn struct {
 type c18XOut struct {
 	Amount int64  `json:"amount"`
 	Script string `json:"script_hex"`
+}
+
+// c18Pattern: n bytes, every position distinguishable (a truncated or shifted copy differs)
+func c18Pattern(n int) []byte {
+	b := make([]byte, n)
+	for i := range b {
+		b[i] = byte(i*31+i>>8) ^ 0x6a
+	}
+	return b
 }
 
 var (
@@ -79,12 +92,19 @@ func (cas c18Case) build() *wire.MsgTx {
 	tx := &wire.MsgTx{Version: cas.Version, LockTime: cas.LockTime}
 	for k, x := range cas.XIns {
 		in := &wire.TxIn{Sequence: uint32(k + 1), SignatureScript: []byte{0x51, byte(k)}}
+		if k < len(cas.SigLens) && cas.SigLens[k] > 0 {
+			in.SignatureScript = c18Pattern(cas.SigLens[k])
+		}
 		copy(in.PreviousOutPoint.Hash[:], mc.UnHex(x.Hash))
 		in.PreviousOutPoint.Index = x.Index
 		tx.TxIn = append(tx.TxIn, in)
 	}
-	for _, x := range cas.XOuts {
-		tx.TxOut = append(tx.TxOut, &wire.TxOut{Value: x.Amount, PkScript: mc.UnHex(x.Script)})
+	for k, x := range cas.XOuts {
+		out := &wire.TxOut{Value: x.Amount, PkScript: mc.UnHex(x.Script)}
+		if k < len(cas.ScriptLens) && cas.ScriptLens[k] > 0 {
+			out.PkScript = c18Pattern(cas.ScriptLens[k])
+		}
+		tx.TxOut = append(tx.TxOut, out)
 	}
 	for k, e := range cas.Ins {
 		in := &wire.TxIn{Sequence: uint32(k + 1), SignatureScript: []byte{0x51, byte(k)}}
@@ -571,7 +591,17 @@ func runC18(c *mc.Ctx) {
 			}
 			xs = append(xs, cas)
 		}
-		c.Space("single-position differences (txid byte, index bit, amount bit, script byte, script prefix)", int64(len(xs)))
+		// long scripts (copy fidelity of the sorted copy): one output script / signature script of a
+		// length around 2^8 and 2^16 next to short ones, sorted and unsorted
+		for _, n := range []int{255, 256, 257, 4096, 65535, 65536, 65537, 70000, 200000} {
+			hA, hB := mc.Hex(bytes.Repeat([]byte{0x21}, 32)), mc.Hex(bytes.Repeat([]byte{0x22}, 32))
+			xs = append(xs,
+				c18Case{XIns: []c18XIn{{hA, 0}}, XOuts: []c18XOut{{5, "51"}, {5, ""}}, ScriptLens: []int{0, n}},
+				c18Case{XIns: []c18XIn{{hA, 0}}, XOuts: []c18XOut{{5, ""}, {5, "51"}}, ScriptLens: []int{n, 0}},
+				c18Case{XIns: []c18XIn{{hB, 1}, {hA, 0}}, XOuts: []c18XOut{{1, "51"}}, SigLens: []int{n, 0}},
+				c18Case{XIns: []c18XIn{{hA, 0}, {hB, 1}}, XOuts: []c18XOut{{1, ""}, {2, ""}}, SigLens: []int{n, n + 1}, ScriptLens: []int{n, n}})
+		}
+		c.Space("single-position differences (txid byte, index bit, amount bit, script byte, script prefix), large transactions, long scripts", int64(len(xs)))
 		c.ParFor(int64(len(xs)), func(w *mc.W, i int64) {
 			w.State()
 			c18Eval(w, xs[i])
